@@ -134,3 +134,13 @@ MUTANTS += [
     dict(id="c10-unknown-service-silent", props=["C10"], file="appservice.py", old="            if not atype:\n                if _debug: ApplicationServiceAccessPoint._debug(\"    - no confirmed request decoder\")\n                error_found = UnrecognizedService()", new="            if not atype:\n                if _debug: ApplicationServiceAccessPoint._debug(\"    - no confirmed request decoder\")\n                if apdu.apduService > 200: return\n                error_found = UnrecognizedService()"),
     dict(id="c10-rpm-unknown-object-raises", props=["C10"], file="service/object.py", old="    def do_ReadPropertyMultipleRequest(self, apdu):", new="    def do_ReadPropertyMultipleRequest(self, apdu):\n        if len(apdu.listOfReadAccessSpecs) > 2: return"),
 ]
+
+MUTANTS += [
+    # ---- C17
+    dict(id="c17-range-16", props=["C17"], file="local/object.py", old="            for i in range(1, 17):\n                priority_value = priority_array[i]", new="            for i in range(1, 16):\n                priority_value = priority_array[i]"),
+    dict(id="c17-relinquish-keeps-value", props=["C17"], file="local/object.py", old="                        priority_value.null = value\n                        setattr(priority_value, _Commando._pv_choice, None)", new="                        priority_value.null = None if arrayIndex == 3 else value\n                        setattr(priority_value, _Commando._pv_choice, None)"),
+    dict(id="c17-default-priority-8", props=["C17"], file="local/object.py", old="                if priority is None:\n                    priority = 16", new="                if priority is None:\n                    priority = 8"),
+    dict(id="c17-bounds-ge-16", props=["C17"], file="local/object.py", old="                    if (arrayIndex < 1) or (arrayIndex > 16):", new="                    if (arrayIndex < 1) or (arrayIndex >= 16):"),
+    dict(id="c17-slot0-accepted", equivalent="index 0 then falls into the 1..16 bounds check and is still refused (with invalidArrayIndex)", props=["C17"], file="local/object.py", old="                    if arrayIndex == 0:\n                        raise ExecutionError(\n                            errorClass=\"property\", errorCode=\"writeAccessDenied\"\n                        )", new="                    if arrayIndex == 0 and False:\n                        raise ExecutionError(\n                            errorClass=\"property\", errorCode=\"writeAccessDenied\"\n                        )"),
+    dict(id="c17-no-change-shortcut", props=["C17"], file="local/object.py", old="                if value == current_value:\n                    if _debug:\n                        Commandable._debug(\"    - no present value change\")", new="                if value == current_value or (arrayIndex == 9 and not value):\n                    if _debug:\n                        Commandable._debug(\"    - no present value change\")"),
+]
